@@ -538,11 +538,15 @@ def tdd_case_history(cid, rng, nv=None, length=60, slots=20, cache=None, cap=1 <
     return (header(cid, "tdd", cap=cap, cache=cache, threads=threads, snap_each=snap_each, extra=extra), ops)
 
 
-def t3fill_op(cap):
-    """the TDD capacity probe sized for a store of `cap` nodes (harness op T3FILL <k>: base of k two-valued
-    functions; the probe then creates up to 10 k single nodes): effective when base < cap <= base + 10 k"""
-    for k, top in ((1, 22), (2, 42), (3, 56), (5, 88), (8, 136)):
-        if cap <= top:
+def t3fill_op(cap, nv=4):
+    """the TDD capacity probe sized for a store of `cap` nodes in a manager with nv variables (harness op
+    T3FILL <k>): phase A creates 12 single nodes per variable; phase B (k >= 1, >= 4 variables) a base of k
+    two-valued functions and then up to 10 k single nodes at level 0; the smallest k that can fill the store"""
+    a = 12 * nv
+    if cap <= a or nv < 4:
+        return "T3FILL 0"
+    for k, top in ((1, 60), (2, 74), (3, 84), (5, 116), (8, 164)):
+        if cap <= top + 12 * (nv - 4):
             return f"T3FILL {k}"
     return "T3FILL 14"
 
@@ -625,3 +629,41 @@ def tdd_case_identities(cid, rng, nv=3, npool=10, nident=40, cache=None, threads
         ops.append(f"EQ h{rng.choice(res + pool)} h{rng.choice(res + pool)}")
     ops += ["SNAP", "DROPALL", "GC", "SNAP"]
     return (header(cid, "tdd", cache=cache, threads=threads), ops)
+
+
+def tdd_case_node_counts(cid, rng, nv, nfun, norders, cache=None):
+    """node_count of nfun random three-valued functions (variables, constants, random connectives / ite) under the
+    initial and norders random variable orders (each followed by a collection in half of the cases)"""
+    cache = cache if cache is not None else rng.choice([16, 1 << 10])
+    ops = [f"VARS {nv}"]
+    pool = []
+    for v in range(nv):
+        ops.append(f"T3VAR h{len(pool)} {v}"); pool.append(len(pool))
+    for c in "fut":
+        ops.append(f"T3CONST h{len(pool)} {c}"); pool.append(len(pool))
+    while len(pool) < nv + 3 + nfun:
+        d = len(pool)
+        r = rng.random()
+        if r < 0.75:
+            ops.append(f"{rng.choice(T3_BIN_OPS)} h{d} h{rng.choice(pool)} h{rng.choice(pool)}")
+        elif r < 0.92:
+            ops.append(f"T3ITE h{d} h{rng.choice(pool)} h{rng.choice(pool)} h{rng.choice(pool)}")
+        else:
+            ops.append(f"T3NOT h{d} h{rng.choice(pool)}")
+        pool.append(d)
+    for i in pool:
+        ops.append(f"NC h{i}")
+    ops.append("SNAP")
+    for _ in range(norders):
+        if nv >= 2:
+            order = list(range(nv)); rng.shuffle(order)
+            ops.append(f"{rng.choice(['ORDER', 'ORDERSEQ'])} " + " ".join(map(str, order)))
+        if rng.random() < 0.5:
+            for x in rng.sample(pool, len(pool) // 3):
+                ops.append(f"DROP h{x}"); pool.remove(x)
+            ops.append("GC")
+        for i in pool:
+            ops.append(f"NC h{i}")
+        ops.append("SNAP")
+    ops += ["DROPALL", "GC", "SNAP"]
+    return (header(cid, "tdd", cache=cache), ops)
